@@ -10,3 +10,28 @@ package utility
 //@   option trusted
 //@   ensures bytes(result) == @encCount(i) && fresh(result)
 //@   modifies nothing
+
+// ---------------------------------------------------------------------------------------------
+// Decimal strings <-> 18-decimal integers (C18). dec-val(s) is the exact rational value of the decimal
+// numeral s (trusted meaning of big.ParseFloat's input); big.Float operations are modelled by their
+// rounding envelopes at the precision and mode found at the call sites (prec = 512, AwayFromZero).
+// ten is the package constant 10.
+
+//@ func strToBigInt
+//@   property C18
+//@   option intmode=math cases=decimal:0:18
+//@   requires ten != nil
+//@   requires [decimals] decimal >= 0 && decimal <= 18
+//@   requires [domain] len(s) > 0 ==> (exists m Int :: real(m) == decval(s) * real(@pow10(decimal)) && m < 1000000000000000000000000000000000000000000000000000000000000000000000000000000000000000000000000 && m > 0 - 1000000000000000000000000000000000000000000000000000000000000000000000000000000000000000000000000)
+//@   ensures [exact] result1 == nil && len(s) > 0 ==> real(big(result0)) == decval(s) * real(@pow10(decimal))
+//@   ensures [empty] len(s) == 0 ==> result1 == nil && big(result0) == 0
+//@   ensures [err]   result1 != nil ==> result0 == nil
+//@   modifies nothing
+
+//@ smt (define-fun pow10 ((d Int)) Int (ite (= d 0) 1 (ite (= d 1) 10 (ite (= d 2) 100 (ite (= d 3) 1000 (ite (= d 4) 10000 (ite (= d 5) 100000 (ite (= d 6) 1000000 (ite (= d 7) 10000000 (ite (= d 8) 100000000 (ite (= d 9) 1000000000 (ite (= d 10) 10000000000 (ite (= d 11) 100000000000 (ite (= d 12) 1000000000000 (ite (= d 13) 10000000000000 (ite (= d 14) 100000000000000 (ite (= d 15) 1000000000000000 (ite (= d 16) 10000000000000000 (ite (= d 17) 100000000000000000 1000000000000000000)))))))))))))))))))
+
+//@ func Uint64ToBigInt
+//@   property C18
+//@   option intmode=math
+//@   ensures [value] result != nil && big(result) == number * 1000000000000000000
+//@   modifies nothing
